@@ -144,7 +144,7 @@ pub fn eval_entry(e: &Entry, f: usize, s: &str) -> Outcome {
 // ---------------------------------------------------------------------------------------------
 // requests and their faults
 
-pub const FAULT_NAMES: [&str; 22] = [
+pub const FAULT_NAMES: [&str; 24] = [
     "truncate",
     "replace_char",
     "delete_char",
@@ -167,6 +167,8 @@ pub const FAULT_NAMES: [&str; 22] = [
     "other_format",
     "extra_spaces",
     "term_missing",
+    "malformed_atom",
+    "unfinished_number",
 ];
 
 #[derive(Clone, Debug)]
@@ -282,7 +284,7 @@ fn gen_request(ch: &mut Choices, gp: &GenParams, fault_rate: u32, f: usize) -> R
     let a_punct = || it.punct.clone().unwrap_or_else(|| fmt.sentence.punctuation_judgement.to_string());
     let a_stamp = || it.stamp.clone().filter(|s| !s.is_empty()).unwrap_or_else(|| fmt.format_stamp(&Stamp::Present));
     // item-level and character-level faults; index 0 (truncate) is the "simplest"
-    let which = ch.weighted(&[14, 8, 6, 8, 9, 7, 5, 5, 5, 4, 4, 7, 5, 4, 3, 3, 1, 1, 3, 3, 2, 3]);
+    let which = ch.weighted(&[14, 8, 6, 8, 9, 7, 5, 5, 5, 4, 4, 7, 5, 4, 3, 3, 1, 1, 3, 3, 2, 3, 6, 5]);
     faults.push(which);
     let text = match which {
         0 => {
@@ -378,7 +380,36 @@ fn gen_request(ch: &mut Choices, gp: &GenParams, fault_rate: u32, f: usize) -> R
             }
             format!(" {out} ")
         }
-        _ => join(&[&it.budget, &it.punct.clone().or_else(|| Some(a_punct())), &it.stamp, &it.truth]),
+        21 => join(&[&it.budget, &it.punct.clone().or_else(|| Some(a_punct())), &it.stamp, &it.truth]),
+        22 => {
+            // an atom that starts like one kind and continues like another: a prefix in front of a
+            // name it cannot carry (interval prefix before letters, a second prefix, a lone prefix)
+            let a = &fmt.atom;
+            let prefixes = [a.prefix_interval, a.prefix_operator, a.prefix_variable_independent, a.prefix_variable_dependent, a.prefix_variable_query, a.prefix_placeholder];
+            let pre = prefixes[ch.weighted(&[50, 10, 10, 10, 10, 10])];
+            let mut chars: Vec<char> = full.chars().collect();
+            let starts: Vec<usize> = (0..chars.len()).filter(|i| chars[*i].is_ascii_alphanumeric() && (*i == 0 || !chars[*i - 1].is_ascii_alphanumeric())).collect();
+            if starts.is_empty() {
+                format!("{pre}x1")
+            } else {
+                let k = starts[ch.choose(starts.len() as u32) as usize];
+                let tail: String = chars.split_off(k).into_iter().collect();
+                let head: String = chars.into_iter().collect();
+                let filler = ["", "x", "12ms", "1-2"][ch.choose(4) as usize];
+                format!("{head}{pre}{filler}{tail}")
+            }
+        }
+        _ => {
+            // the input ends while a number is still being read / a number is malformed before its bracket
+            let sep = fmt.sentence.truth_separator;
+            let bsep = fmt.task.budget_separator;
+            match ch.choose(4) {
+                0 => join(&[&it.budget, &term, &it.punct, &it.stamp, &Some(format!("{}0.5{sep}0.9", tb.0))]),
+                1 => format!("{}0.5{bsep}0.5", bb.0),
+                2 => join(&[&it.budget, &term, &it.punct, &it.stamp, &Some(format!("{}1.2.3{}", tb.0, tb.1))]),
+                _ => join(&[&Some(format!("{}0.7{bsep}", bb.0)), &term]),
+            }
+        }
     };
     Req { text, f, faults }
 }
@@ -393,11 +424,10 @@ enum Op {
     /// a stateless entry point
     Call { e: Entry, f: usize, req: usize, variant: u8 },
 }
-pub const OP_NAMES: [&str; 5] = ["batch(parse_multi)", "call", "call-chars", "call-lex-fresh", "nested-batch"];
 
 #[derive(Default, Clone)]
 pub struct SessionsRunStats {
-    pub faults: [u64; 22],
+    pub faults: [u64; 24],
     pub requests: u64,
     pub requests_faulty: u64,
     pub ops: u64,
@@ -412,6 +442,7 @@ pub struct SessionsRunStats {
     pub observations: u64,
     pub repeats_in_batch: u64,
     pub same_len_variants: u64,
+    pub cross_format_pairs: u64,
     pub skipped_panicking: u64,
     /// [mask][class of the request parsed next]: how often a session was re-targeted with these
     /// slots still filled (probe; hooked build only)
@@ -776,6 +807,7 @@ pub fn run_sessions(ch: &mut Choices, verbose: bool) -> SessionsReport {
     let mut stats = SessionsRunStats::default();
     stats.clients = n_clients as u64;
     let mut reqs: Vec<Req> = Vec::with_capacity(n_reqs + 8);
+    let mut same_len = 0u64;
     let generated = guarded(|| {
         let mut reqs: Vec<Req> = vec![];
         for _ in 0..n_reqs {
@@ -788,6 +820,7 @@ pub fn run_sessions(ch: &mut Choices, verbose: bool) -> SessionsReport {
                     chars[k] = if chars[k] == 'Z' { 'Y' } else { 'Z' };
                     let r = Req { text: chars.into_iter().collect(), f: prev.f, faults: prev.faults.clone() };
                     reqs.push(r);
+                    same_len += 1;
                     continue;
                 }
             }
@@ -804,6 +837,7 @@ pub fn run_sessions(ch: &mut Choices, verbose: bool) -> SessionsReport {
     if reqs.is_empty() {
         return SessionsReport { violations: vec![], log, stats };
     }
+    stats.same_len_variants = same_len;
     for (i, r) in reqs.iter().enumerate() {
         stats.requests += 1;
         if !r.faults.is_empty() {
@@ -823,6 +857,9 @@ pub fn run_sessions(ch: &mut Choices, verbose: bool) -> SessionsReport {
         let mut q = VecDeque::new();
         for _ in 0..n_ops {
             let pick_req = |ch: &mut Choices| ch.choose(reqs.len() as u32) as usize;
+            // stateless calls mostly use the format the request was written in; sometimes another
+            // one (the same string under two vocabularies), and sometimes both back to back
+            let fmt_of = |ch: &mut Choices, r: usize| if ch.chance(1, 6) { ch.choose(3) as usize } else { reqs[r].f };
             // 0 = batch (the session), then the stateless entry points
             match ch.weighted(&[50, 10, 8, 6, 8, 4, 6, 8]) {
                 0 => {
@@ -843,35 +880,26 @@ pub fn run_sessions(ch: &mut Choices, verbose: bool) -> SessionsReport {
                     let alone_first = ch.chance(1, 2);
                     q.push_back(Op::Batch { f, reqs: ids, alone_first });
                 }
-                1 => {
+                w => {
                     let r = pick_req(ch);
-                    q.push_back(Op::Call { e: Entry::Enum, f: reqs[r].f, req: r, variant: 0 });
-                }
-                2 => {
-                    let r = pick_req(ch);
-                    q.push_back(Op::Call { e: Entry::Enum, f: reqs[r].f, req: r, variant: 1 });
-                }
-                3 => {
-                    let r = pick_req(ch);
-                    let e = [Entry::SideTruth, Entry::SideBudget, Entry::SideStamp, Entry::SidePunct][ch.choose(4) as usize].clone();
-                    q.push_back(Op::Call { e, f: reqs[r].f, req: r, variant: 0 });
-                }
-                4 => {
-                    let r = pick_req(ch);
-                    q.push_back(Op::Call { e: Entry::Lex, f: reqs[r].f, req: r, variant: 0 });
-                }
-                5 => {
-                    let r = pick_req(ch);
-                    let v = if ch.chance(1, 3) { 2 } else { 0 };
-                    q.push_back(Op::Call { e: Entry::LexTerm, f: reqs[r].f, req: r, variant: v });
-                }
-                6 => {
-                    let r = pick_req(ch);
-                    q.push_back(Op::Call { e: Entry::LexFold, f: reqs[r].f, req: r, variant: 0 });
-                }
-                _ => {
-                    let r = pick_req(ch);
-                    q.push_back(Op::Call { e: Entry::Lex, f: reqs[r].f, req: r, variant: 2 });
+                    let f = fmt_of(ch, r);
+                    let (e, variant) = match w {
+                        1 => (Entry::Enum, 0),
+                        2 => (Entry::Enum, 1),
+                        3 => ([Entry::SideTruth, Entry::SideBudget, Entry::SideStamp, Entry::SidePunct][ch.choose(4) as usize].clone(), 0),
+                        4 => (Entry::Lex, 0),
+                        5 => (Entry::LexTerm, if ch.chance(1, 3) { 2 } else { 0 }),
+                        6 => (Entry::LexFold, 0),
+                        _ => (Entry::Lex, 2),
+                    };
+                    q.push_back(Op::Call { e: e.clone(), f, req: r, variant });
+                    // sequence-level fault: the same input again at once, under another format or
+                    // through the sibling entry point
+                    if ch.chance(1, 8) {
+                        stats.cross_format_pairs += 1;
+                        let g = (f + 1 + ch.choose(2) as usize) % 3;
+                        q.push_back(Op::Call { e, f: g, req: r, variant: 0 });
+                    }
                 }
             }
         }
